@@ -28,19 +28,67 @@ class NumArr:
         """`fixed`: 'int' when the array was allocated with an integer dtype (explicitly or *_like an integer array):
         numpy then casts every value stored into it (floats are truncated)"""
         self.fixed = fixed
-        self.data = [NumArr(r, fixed) if isinstance(r, (list, tuple)) else r for r in (data.data if isinstance(data, NumArr) else list(data))]
+        self._ver = 0             # bumped by every write into this array (or, for a matrix, into one of its rows)
+        self._view = None         # (base, stamp of the base when this array was taken from it): see _as_view
+        src = data.data if isinstance(data, NumArr) else list(data)
+        # rows are always this array's own objects: a new array never shares storage with the one it was built from
+        self._data = [NumArr(list(r.data), fixed or r.fixed) if isinstance(r, NumArr) else (NumArr(r, fixed) if isinstance(r, (list, tuple)) else r) for r in src]
         if fixed:
-            for r in self.data:
+            for r in self._data:
                 if isinstance(r, NumArr):
                     r.fixed = fixed
         self._homogenise()
 
+    # numpy hands out *views* for basic slices, reshape, ravel, transposes: they share memory with their base.  This model keeps
+    # nested lists and copies there.  To stay honest it remembers that such an array is a stand-in for a view: writing through it,
+    # or reading it after the base was written, is outside the model (Undecided) instead of silently acting on a private copy.
+    @property
+    def data(self):
+        v = self.__dict__.get("_view")
+        if v is not None and v[0]._stamp() != v[1]:
+            self._settle()
+            if self._view is None:
+                return self._data
+            raise Undecided("an array view is read after its base was written: the concrete array model does not share storage between a base and its slices / reshapes")
+        return self._data
+
+    @data.setter
+    def data(self, value):
+        self._data = value
+
+    def _stamp(self):
+        return self._ver + sum(r._ver for r in self._data if isinstance(r, NumArr))
+
+    def _settle(self):
+        """drop the link to a base that nobody else holds any more (np.arange(6).reshape(2, 3): the arange is gone) - sharing with
+        it cannot be observed, this array owns its data"""
+        v = self.__dict__.get("_view")
+        if v is not None:
+            import sys
+            if sys.getrefcount(v[0]) <= 2:          # the tuple in _view and the argument of getrefcount
+                self._view = None
+        return self
+
+    def _as_view(self, base):
+        base._settle()
+        root = base if base._view is None else base._view[0]
+        if root is not self:
+            self._view = (root, root._stamp())
+        return self
+
+    def _written(self):
+        self._settle()
+        v = self.__dict__.get("_view")
+        if v is not None:
+            raise Undecided("write through an array view (slice / reshape / ravel / transpose): the concrete array model does not share storage with the base")
+        self._ver += 1
+
     def _homogenise(self):
         """numpy arrays have one dtype: integers stored next to reals are reals"""
-        flat = [y for x in self.data for y in (x.data if isinstance(x, NumArr) else [x])]
+        flat = [y for x in self._data for y in (x.data if isinstance(x, NumArr) else [x])]
         if any(isinstance(v, float) for v in flat) and all(isinstance(v, (int, float)) and not isinstance(v, bool) for v in flat) \
                 and any(isinstance(v, int) for v in flat):
-            self.data = [NumArr([float(y) for y in x.data]) if isinstance(x, NumArr) else float(x) for x in self.data]
+            self._data = [NumArr([float(y) for y in x.data]) if isinstance(x, NumArr) else float(x) for x in self._data]
 
     def _cast(self, v):
         if self.fixed == "int":
@@ -112,7 +160,9 @@ class NumArr:
             n = len(f) if shape[0] == -1 else shape[0]
             if n != len(f):
                 raise ValueError("cannot reshape array of size %d into shape %r" % (len(f), shape))
-            return NumArr(list(f))
+            return NumArr(list(f))._as_view(self) if self.ndim == 2 else self
+        if len(shape) != 2:
+            raise Undecided("reshape to %d axes" % len(shape))
         r, c = shape
         if r == -1:
             r = len(f) // c
@@ -121,16 +171,16 @@ class NumArr:
         if r * c != len(f):
             raise ValueError("cannot reshape array of size %d into shape %r" % (len(f), shape))
         if order in ("F", "f"):
-            return NumArr([[f[i + j * r] for j in range(c)] for i in range(r)])
-        return NumArr([[f[i * c + j] for j in range(c)] for i in range(r)])
+            return NumArr([[f[i + j * r] for j in range(c)] for i in range(r)])._as_view(self)
+        return NumArr([[f[i * c + j] for j in range(c)] for i in range(r)])._as_view(self)
 
     def ravel(self, order="C"):
         if order not in ("C", "F", "A", "K"):
             raise ValueError("order not understood")
         if self.ndim == 2:
             if order == "F":
-                return NumArr([r.data[j] for j in range(len(self.data[0])) for r in self.data] if self.data else [])
-            return NumArr([y for x in self.data for y in x.data])
+                return NumArr([r.data[j] for j in range(len(self.data[0])) for r in self.data] if self.data else [])     # a copy in numpy too
+            return NumArr([y for x in self.data for y in x.data])._as_view(self)
         return self
 
     def flatten(self, order="C"):
@@ -142,17 +192,19 @@ class NumArr:
     @property
     def T(self):
         if self.ndim == 2:
-            return NumArr([[r.data[j] for r in self.data] for j in range(len(self.data[0]))])
+            return NumArr([[r.data[j] for r in self.data] for j in range(len(self.data[0]))])._as_view(self)
         return self
 
     def fill(self, v):
         """a.fill(v): every element becomes v, in place (cast to the array's dtype)"""
         v = int(v) if self.dtype == "int" and isinstance(v, float) else v
+        self._written()
         if self.ndim == 1:
-            self.data[:] = [v] * len(self.data)
+            self._data[:] = [v] * len(self._data)
         else:
-            for r in self.data:
-                r.data[:] = [v] * len(r.data)
+            for r in self._data:
+                r._written()
+                r._data[:] = [v] * len(r._data)
         return None
 
     def swapaxes(self, i, j):
@@ -205,13 +257,31 @@ class NumArr:
         key = self._no_ellipsis(key)
         if isinstance(key, tuple):
             if len(key) == 2 and self.ndim == 2:
+                basic = all(isinstance(k, slice) or (isinstance(k, int) and not isinstance(k, bool)) for k in key)
+                if isinstance(key[0], int) and not isinstance(key[0], bool):
+                    row = self.data[self._idx(key[0])]
+                    out = row[key[1]]
+                    return out._as_view(self) if isinstance(out, NumArr) and isinstance(key[1], slice) else out
+                if sum(1 for k in key if _is_seq(k)) == 2:
+                    # two index arrays are paired (numpy), not crossed
+                    i0 = key[0].tolist() if isinstance(key[0], NumArr) else list(key[0])
+                    i1 = key[1].tolist() if isinstance(key[1], NumArr) else list(key[1])
+                    if any(isinstance(v, (list, bool)) for v in i0 + i1):
+                        raise Undecided("index %r" % (key,))
+                    if len(i0) != len(i1):
+                        if len(i0) == 1:
+                            i0 = i0 * len(i1)
+                        elif len(i1) == 1:
+                            i1 = i1 * len(i0)
+                        else:
+                            raise IndexError("shape mismatch: indexing arrays could not be broadcast together")
+                    return NumArr([self.data[self._idx(a_)].data[self.data[0]._idx(b_)] for a_, b_ in zip(i0, i1)])
                 rows = self[key[0]]
-                if isinstance(key[0], int):
-                    return rows[key[1]]
-                return NumArr([r[key[1]] for r in rows.data])
+                out = NumArr([r[key[1]] for r in rows.data])
+                return out._as_view(self) if basic else out
             raise Undecided("index %r" % (key,))
         if isinstance(key, slice):
-            return NumArr(self.data[key])
+            return NumArr(self.data[key])._as_view(self)
         if _is_seq(key):
             ks = list(key)
             if ks and all(isinstance(b, bool) for b in ks):
@@ -224,11 +294,17 @@ class NumArr:
     def __setitem__(self, key, value):
         key = self._no_ellipsis(key)
         value = self._cast(value)
+        self._written()
         if isinstance(key, int) and not isinstance(key, bool) and self.ndim == 2:
             row = list(value) if _is_seq(value) else [value] * len(self.data[0])
             if len(row) != len(self.data[0]):
-                raise Undecided("shape mismatch in row assignment")
-            self.data[self._idx(key)] = NumArr(row, self.fixed)
+                if len(row) == 1:
+                    row = row * len(self.data[0])
+                else:
+                    raise ValueError("could not broadcast input array from shape (%d,) into shape (%d,)" % (len(row), len(self.data[0])))
+            tgt = self.data[self._idx(key)]
+            tgt._written()
+            tgt._data[:] = [tgt._cast(v) for v in row]          # the row keeps its identity: whoever holds it sees the new values
             return
         if isinstance(key, NumArr) and key.ndim == 2 and self.ndim == 2:
             for r, kr in zip(self.data, key.data):
@@ -273,7 +349,15 @@ class NumArr:
         r = self._bin(o, fn)
         if self.dtype == "int" and r.dtype == "float":
             raise TypeError("numpy: cannot cast the float result of an in-place operation to an integer array")
-        self.data = r.data
+        if r.shape != self.shape:
+            raise ValueError("non-broadcastable output operand with shape %s doesn't match the broadcast shape %s" % (self.shape, r.shape))
+        self._written()
+        if self.ndim == 2:
+            for mine, new_ in zip(self._data, r.data):
+                mine._written()
+                mine._data[:] = list(new_.data)
+        else:
+            self._data[:] = list(r.data)
         return self
 
     def __iadd__(self, o): return self._inplace(o, lambda a, b: a + b)
@@ -497,6 +581,23 @@ def _vstack(seq):
     return NumArr(rows)
 
 
+def _np_arange(*a, dtype=None):
+    """np.arange(stop) / (start, stop[, step]): integers give an integer array, any real argument a real one"""
+    if not 1 <= len(a) <= 3 or any(isinstance(x, bool) or not isinstance(x, (int, float)) for x in a):
+        raise Undecided("np.arange%r" % (a,))
+    start, stop, step = (0, a[0], 1) if len(a) == 1 else (a[0], a[1], 1) if len(a) == 2 else a
+    if step == 0:
+        raise ZeroDivisionError("Maximum allowed size exceeded")
+    if all(isinstance(x, int) for x in (start, stop, step)) and _dtype_name(dtype) in (None, "int"):
+        return NumArr(list(range(start, stop, step)), "int")
+    import math
+    n = max(int(math.ceil((stop - start) / step)), 0)
+    vals = [start + k * step for k in range(n)]
+    if _dtype_name(dtype) == "int":
+        return NumArr([int(v) for v in vals], "int")
+    return NumArr([float(v) for v in vals])
+
+
 def _arrify_(v):
     return v if isinstance(v, NumArr) else NumArr(list(v) if _is_seq(v) else [v])
 
@@ -552,11 +653,13 @@ def write_into(out, r):
     rr = r if isinstance(r, NumArr) else NumArr([r])
     if tuple(out.shape) != tuple(rr.shape):
         raise ValueError("output parameter has the wrong shape %s, expected %s" % (tuple(out.shape), tuple(rr.shape)))
+    out._written()
     if out.ndim == 1:
-        out.data[:] = [_cast_like(out, v) for v in rr.data]
+        out._data[:] = [_cast_like(out, v) for v in rr.data]
     else:
-        for ro, rn in zip(out.data, rr.data):
-            ro.data[:] = [_cast_like(out, v) for v in rn.data]
+        for ro, rn in zip(out._data, rr.data):
+            ro._written()
+            ro._data[:] = [_cast_like(out, v) for v in rn.data]
     return out
 
 
@@ -763,7 +866,7 @@ def num_summaries():
         "np.all": lambda a, axis=None: (all(bool(x) for x in (_arrify(a).ravel() if isinstance(_arrify(a), NumArr) else [a])) if axis is None else _raise_und("np.all along an axis")),
         "np.zeros": lambda shape=None, dtype=None, *a, **k: _alloc(shape, 0 if _dtype_name(dtype) == "int" else False if _dtype_name(dtype) == "bool" else 0.0, "int" if _dtype_name(dtype) == "int" else None),
         "np.histogram": histogram,
-        "np.arange": lambda *a: NumArr(list(range(*a))), "np.isin": lambda a, b: emap(lambda x: x in list(_arrify(b).ravel() if isinstance(_arrify(b), NumArr) else [b]), _arrify(a)),
+        "np.arange": _np_arange, "np.isin": lambda a, b: emap(lambda x: x in list(_arrify(b).ravel() if isinstance(_arrify(b), NumArr) else [b]), _arrify(a)),
         "np.diff": only1d(lambda a: NumArr([y - x for x, y in zip(list(a)[:-1], list(a)[1:])]), "np.diff"),
         "np.cumsum": lambda a, axis=None: _arrify_(a).cumsum(axis), "np.argmin": lambda a, axis=None: _arrify_(a).argmin(axis), "np.argmax": lambda a, axis=None: _arrify_(a).argmax(axis),
         "np.flatnonzero": lambda a: NumArr([i for i, b in enumerate(_arrify(a).ravel() if isinstance(_arrify(a), NumArr) else [a]) if b]),
